@@ -5,16 +5,22 @@ EXTENDS TraceKit, C08_Operators
 VARIABLES ci, ei, st, nj, ns, ne
 InitState(c) == [g |-> [P |-> c.given.P, F |-> c.given.F, E |-> c.given.E, C |-> c.given.C],
                  D |-> Derive(c.given.F, Len(c.given.P), c.given.E), fam |-> c.given.family,
-                 hist |-> c.given.hist]          \* "" / "warm" (cacheable attributes computed before) / "moved" (... and the mesh moved afterwards)
+                 hist |-> c.given.hist, tiny |-> c.given.scale10 > 0]          \* "" / "warm" (cacheable attributes computed before) / "moved" (... and the mesh moved afterwards)
 Diag(v) == [i \in 1..Len(v) |-> [j \in 1..Len(v) |-> IF i = j THEN v[i] ELSE Zero]]
 AllRat(M) == \A i \in 1..Len(M) : \A j \in 1..Len(M[i]) : M[i][j][2] > 0
 Sq(M) == [i \in 1..Len(M) |-> [j \in 1..Len(M[i]) |-> RMul(M[i][j], M[i][j])]]
 Inv(v) == [i \in 1..Len(v) |-> RInv(v[i])]
-Judge(c, s, e) ==
+(* every operator is homogeneous in the size of the mesh: a mesh shrunk by 10^k (given.scale10) is recorded with its entries multiplied by *)
+(* 10^(k * degree), and must then have the entries of the lattice mesh; this is the degree of what the driver records                       *)
+HomDeg(nm, opt) == IF nm = "adjacency_length" THEN 2
+                   ELSE IF nm \in {"mass_vertices", "mass_edges", "mass_faces"} THEN (IF opt \in {"inverse", "inverse_sqrt"} THEN -2 ELSE 2)
+                   ELSE IF nm \in {"mass_volume_vertices", "mass_volume_cells"} THEN (IF opt = "inverse" THEN -3 ELSE 3)
+                   ELSE IF nm = "gradient_flat" THEN -1 ELSE 0
+Judge0(c, s, e) ==
   LET g == s.g
       D == s.D
       nm == e.name
-      cls == nm \o (IF e.opt # "" THEN "/" \o e.opt ELSE "") \o (IF s.hist = "moved" THEN "/after_transform" ELSE IF s.hist = "warm" THEN "/attributes_cached" ELSE "")
+      cls == nm \o (IF e.opt # "" THEN "/" \o e.opt ELSE "") \o (IF s.hist = "moved" THEN "/after_transform" ELSE IF s.hist = "warm" THEN "/attributes_cached" ELSE "") \o (IF s.tiny THEN "/tiny" ELSE "")
       eq(want, clause) == Check(<< << e.exc = "", "operator_is_computed" >>, << e.M = want, clause >> >>, cls, "", s)
       tri == \A f \in 1..Len(g.F) : Len(g.F[f]) = 3
   IN
@@ -53,7 +59,9 @@ Judge(c, s, e) ==
          IF ~tri \/ ~CotAvail(g, D) THEN Skip(s)
          ELSE Check(<< << e.exc = "", "operator_is_computed" >>, << e.M = Stiffness(g, D), "gradient_star_area_gradient_is_the_laplacian" >>,
                        << \A f \in 1..Len(g.F) : LET n == FaceN(g, f) IN
-                             e.g2[f] = RSub(R(IDt(e.a, e.a)), Norm(<<IDt(e.a, n) * IDt(e.a, n), IDt(n, n)>>)), "gradient_of_affine_function_is_its_tangential_gradient" >> >>, cls, "", s)
+                             e.g2[f] = RSub(R(IDt(e.a, e.a)), Norm(<<IDt(e.a, n) * IDt(e.a, n), IDt(n, n)>>)), "gradient_of_affine_function_is_its_tangential_gradient" >>,
+                       << \A f \in 1..Len(g.F) : LET n == FaceN(g, f) IN       \* ... as a vector of space: a - (a.n) n / (n.n)
+                             e.g3[f] = [k \in 1..3 |-> RSub(R(e.a[k]), Norm(<<IDt(e.a, n) * n[k], IDt(n, n)>>))], "gradient_vector_in_the_face_basis_is_the_tangential_gradient" >> >>, cls, "", s)
     [] nm = "laplacian_triangles" ->
          IF ~tri \/ (e.opt = "cotan" /\ ~DualAvail(g, D)) THEN Skip(s)
          ELSE Check(<< << e.exc = "", "operator_is_computed" >>, << AllRat(e.M) /\ IsSym(e.M) /\ RowSumsZero(e.M), "dual_laplacian_symmetric_zero_row_sums" >>,
@@ -63,6 +71,7 @@ Judge(c, s, e) ==
          Check(<< << e.exc = "", "operator_is_computed" >>,
                   << \A i \in 1..Len(e.rows) : e.rows[i] = Zero, "zero_row_sums" >>, << \A i \in 1..Len(e.asym) : e.asym[i] = Zero, "symmetric" >> >>, cls, "", s)
     [] OTHER -> Bad("unknown_operator", nm, "", s)
+Judge(c, s, e) == IF e.deg # HomDeg(e.name, e.opt) THEN Bad("recorded_with_the_operators_homogeneity_degree", e.name, "", s) ELSE Judge0(c, s, e)
 W0 == INSTANCE Walker
 Spec == W0!Spec
 =============================================================================
